@@ -359,4 +359,314 @@ theorem PCMFrame_unpack_outcomes (t : Frame) (buf : Bytes) (ex : Bool) :
         all_goals first
           | (simp; done)
           | (rename_i e h; have := structUnpackFrom_error _ _ _ _ h; subst this; simp)
+/-! ### packet-level outcome list (review B4): `PCMDataPacket.unpack` returns, or raises `struct.error` (channel-specific
+    word incomplete; sync-word option that does not fit 32 bits) or a bare `Exception` (packed mode: the frame slice is
+    too short for the time stamp + data header [+ sync/SFID words]); each kind characterised on the bytes -/
+
+/-- bytes a packed-mode frame decoder needs: time stamp (8), data header (2 for 16-bit, 4 for 32-bit alignment), and with
+    `extract_sync_sfid` three more half words -/
+def pcmNeed (a : Nat) (ex : Bool) : Nat := 8 + (if a = 0 then 2 else 4) + (if ex then 6 else 0)
+
+theorem Ipts_unpack_short (t : Ipts) (hn : t ≠ .none) (b : Bytes) (h : b.length ≠ 8) : Ipts.unpack t b = .error .struct := by
+  cases t with
+  | none => exact absurd rfl hn
+  | rtc c => simp [Ipts.unpack, structUnpack, h, Acra.Gen.Ch11PayTs.RTC_unpack_fmt0, Fmt.size, codesSize, Code.size]
+  | ptp a c => simp [Ipts.unpack, structUnpack, h, Acra.Gen.Ch11PayTs.PTP_unpack_fmt0, Fmt.size, codesSize, Code.size]
+
+/-- whether a packed-mode frame object decodes a slice depends on the slice's LENGTH only; the exception otherwise is
+    `struct.error` -/
+theorem PCMFrame_packed_unpack_iff (f : Frame) (a : Nat) (ha : a < 2) (hn : f.ipts ≠ .none) (ht : f.throughput = false)
+    (hal : f.alignment = a) (b : Bytes) (ex : Bool) :
+    ((Frame.unpack f b ex).2 = .ok () ↔ pcmNeed a ex ≤ b.length) ∧
+    ((Frame.unpack f b ex).2 = .ok () ∨ (Frame.unpack f b ex).2 = .error .struct) := by
+  by_cases h8 : 8 ≤ b.length
+  · obtain ⟨i, hi⟩ := Ipts_unpack_ok8 f.ipts hn (b.take 8) (by simp; omega)
+    have hfmt : ∃ fmt hl c, hdrFmt a = .ok (fmt, hl) ∧ fmt.size = hl ∧ hl = (if a = 0 then 2 else 4) ∧ fmt.codes = [c] := by
+      have : a = 0 ∨ a = 1 := by omega
+      rcases this with rfl | rfl
+      · exact ⟨DATA_HEADER_FORMAT_16, 2, .u16, rfl, rfl, rfl, rfl⟩
+      · exact ⟨DATA_HEADER_FORMAT_32, 4, .u32, rfl, rfl, rfl, rfl⟩
+    obtain ⟨fmt, hl, c, hfmt, hsize, hlv, hcodes⟩ := hfmt
+    simp only [Frame.unpack, hn, if_false, hi, ht, Bool.false_eq_true, hal, hfmt, pcmNeed, ← hlv]
+    by_cases hh : 8 + hl ≤ b.length
+    · have h1 : structUnpackFrom fmt b 8 = .ok [decInt fmt.big ((b.drop 8).take c.size)] := by
+        simp only [structUnpackFrom, hsize, hh, if_true, hcodes, unpackCodes]
+      simp only [h1]
+      cases ex with
+      | false => simp only [Bool.false_eq_true, if_false, true_iff, Nat.add_zero, true_or, and_true]; exact hh
+      | true =>
+        simp only [if_true]
+        by_cases h6 : 8 + hl + 6 ≤ b.length
+        · have h2 : ∃ x y z, structUnpackFrom MF_unpack_fmt0 b (8 + hl) = .ok [x, y, z] := by
+            simp only [structUnpackFrom, MF_unpack_fmt0, Fmt.size, codesSize, Code.size, unpackCodes]
+            have : 8 + hl + (2 + (2 + (2 + 0))) ≤ b.length := by omega
+            simp only [this, if_true]
+            exact ⟨_, _, _, rfl⟩
+          obtain ⟨x, y, z, h2⟩ := h2
+          simp only [h2, true_iff, true_or, and_true]; exact h6
+        · have h2 : structUnpackFrom MF_unpack_fmt0 b (8 + hl) = .error .struct := by
+            simp only [structUnpackFrom, MF_unpack_fmt0, Fmt.size, codesSize, Code.size]
+            have : ¬ 8 + hl + (2 + (2 + (2 + 0))) ≤ b.length := by omega
+            simp only [this, if_false]
+          simp only [h2, reduceCtorEq, false_iff, false_or, and_true]; exact h6
+    · have h1 : structUnpackFrom fmt b 8 = .error .struct := by
+        simp only [structUnpackFrom, hsize, hh, if_false]
+      simp only [h1, reduceCtorEq, false_iff, false_or, and_true]
+      split <;> omega
+  · have := Ipts_unpack_short f.ipts hn (b.take 8) (by simp; omega)
+    simp only [Frame.unpack, hn, if_false, this, reduceCtorEq, false_iff, false_or, and_true, pcmNeed]
+    split <;> split <;> omega
+
+/-- the packed-mode loop raises — always a bare `Exception` — exactly when its first slice exists and is too short
+    (all slices have the same length `req`, so the first one decides) -/
+theorem decFrames_error_iff (f : Frame) (a : Nat) (ha : a < 2) (hn : f.ipts ≠ .none) (ht : f.throughput = false)
+    (hal : f.alignment = a) (ex : Bool) (req : Nat) (buf : Bytes) (fuel off : Nat)
+    (hf : buf.length - off + 1 ≤ fuel) (e : Err) :
+    decFrames f ex req buf fuel off = .error e ↔ e = .generic ∧ off + req ≤ buf.length ∧ req < pcmNeed a ex := by
+  induction fuel generalizing off with
+  | zero => omega
+  | succ fuel ih =>
+    unfold decFrames
+    by_cases hle : off + req ≤ buf.length
+    · rw [if_pos hle]
+      have hsl : (slice buf off (off + req)).length = req := by simp only [slice_length]; omega
+      have hiff := (PCMFrame_packed_unpack_iff f a ha hn ht hal (slice buf off (off + req)) ex).1
+      rw [hsl] at hiff
+      cases hu : Frame.unpack f (slice buf off (off + req)) ex with
+      | mk g r =>
+        rw [hu] at hiff
+        cases r with
+        | error e' =>
+          have : ¬ pcmNeed a ex ≤ req := fun h => by have := hiff.2 h; cases this
+          simp only [Except.error.injEq]
+          constructor
+          · rintro rfl; exact ⟨rfl, hle, by omega⟩
+          · rintro ⟨rfl, _⟩; rfl
+        | ok u =>
+          cases u
+          have hreq : pcmNeed a ex ≤ req := hiff.1 rfl
+          have hpos : 10 ≤ pcmNeed a ex := by simp only [pcmNeed]; split <;> split <;> omega
+          have := ih (off + req + (if req % 2 != 0 then 1 else 0)) (by omega)
+          simp only
+          cases hr : decFrames f ex req buf fuel (off + req + (if req % 2 != 0 then 1 else 0)) with
+          | ok fs =>
+            simp only [reduceCtorEq, false_iff]
+            rintro ⟨_, _, h⟩; omega
+          | error e' =>
+            rw [hr] at this
+            simp only
+            constructor
+            · intro h
+              obtain ⟨_, _, h'⟩ := this.1 h
+              omega
+            · rintro ⟨_, _, h⟩; omega
+    · rw [if_neg hle]
+      simp only [reduceCtorEq, false_iff]
+      rintro ⟨_, h, _⟩; exact hle h
+
+/-- size detection fails only when the sync-word option does not fit the 32-bit pattern it is packed into -/
+theorem detect_error_iff (p : Packet) (buf : Bytes) (hl : Nat) (e : Err) :
+    detect p buf hl = .error e ↔ e = .struct ∧ ∃ sw, p.syncword = some sw ∧ 4294967296 ≤ sw := by
+  simp only [detect]
+  cases hs : p.syncword with
+  | none => simp
+  | some sw =>
+    simp only [Option.some.injEq, exists_eq_left']
+    by_cases hlt : sw < 4294967296
+    · have : ∃ pat, structPack PCM_unpack_fmt1 [sw] = .ok pat :=
+        (structPack_ok_iff _ _).2 (by simp [PCM_unpack_fmt1, Fits, Code.bound, hlt])
+      obtain ⟨pat, hp⟩ := this
+      simp only [hp]
+      constructor
+      · intro h; split at h <;> cases h
+      · rintro ⟨_, h⟩; omega
+    · have : structPack PCM_unpack_fmt1 [sw] = .error .struct := by
+        simp [structPack, PCM_unpack_fmt1, packCodes, Code.bound, hlt]
+      simp only [this, Except.error.injEq]
+      constructor
+      · rintro rfl; exact ⟨rfl, by omega⟩
+      · rintro ⟨rfl, _⟩; rfl
+
+/-- the channel-specific word (little-endian 32 bits) of a buffer holding it -/
+def pcmCsw (buf : Bytes) : Nat := decInt false (buf.take 4)
+/-- the alignment bit (bit 21) and throughput bit (bit 20) of the channel-specific word -/
+def pcmAlign (buf : Bytes) : Nat := (pcmCsw buf / 2097152) % 2
+def pcmThroughput (buf : Bytes) : Prop := (pcmCsw buf / 1048576) % 2 = 1
+/-- the slice length of the packed-mode loop for a frame size `size` (assigned or detected; may be negative when detected) -/
+def pcmReq (buf : Bytes) (size : Int) : Nat :=
+  (size + ((8 : Nat) : Int) + ((if pcmAlign buf = 0 then 2 else 4 : Nat) : Int)).toNat
+
+instance (buf : Bytes) : Decidable (pcmThroughput buf) := by unfold pcmThroughput; exact inferInstance
+
+/-- exactly which exception, and when.  Throughput mode never fails once the 4-byte word is there. -/
+theorem PCM_unpack_error_iff (t : Packet) (buf : Bytes) (ex : Bool) (e : Err) :
+    (Packet.unpack t buf ex).2 = .error e ↔
+      (buf.length < 4 ∧ e = .struct) ∨
+      (4 ≤ buf.length ∧ ¬ pcmThroughput buf ∧
+        ((t.assigned = Option.none ∧ e = .struct ∧ ∃ sw, t.syncword = some sw ∧ 4294967296 ≤ sw) ∨
+         (∃ size : Int, (t.assigned = some size.toNat ∧ 0 ≤ size ∨
+              t.assigned = Option.none ∧ detect t buf (if pcmAlign buf = 0 then 2 else 4) = .ok size) ∧
+            e = .generic ∧ 4 + pcmReq buf size ≤ buf.length ∧ pcmReq buf size < pcmNeed (pcmAlign buf) ex))) := by
+  simp only [Packet.unpack]
+  by_cases h4 : 4 ≤ buf.length
+  · have hc : structUnpackFrom PCM_unpack_fmt0 buf 0 = .ok [pcmCsw buf] := by
+      simp only [structUnpackFrom, PCM_unpack_fmt0, Fmt.size, codesSize, Code.size, unpackCodes, pcmCsw, List.drop_zero]
+      have : 0 + (4 + 0) ≤ buf.length := by omega
+      simp only [this, if_true]
+    simp only [hc]
+    by_cases hthr : pcmThroughput buf
+    · have hthr' : (pcmCsw buf / MODE_THROUGHPUT) % 2 = 1 := hthr
+      simp only [hthr', decide_true, if_true]
+      have hfr : (Frame.unpack (Frame.fresh (some DEFAULT_IPTS_SOURCE) true (pcmCsw buf / MODE_ALIGNMENT % 2)) (buf.drop 4) false).2 = .ok () := by
+        simp [Frame.unpack, Frame.fresh]
+      cases hu : Frame.unpack (Frame.fresh (some DEFAULT_IPTS_SOURCE) true (pcmCsw buf / MODE_ALIGNMENT % 2)) (buf.drop 4) false with
+      | mk g r =>
+        rw [hu] at hfr
+        simp only at hfr
+        subst hfr
+        simp only [reduceCtorEq, false_iff]
+        rintro (⟨h, _⟩ | ⟨_, h, _⟩)
+        · omega
+        · exact h hthr
+    · have hthr' : ¬ (pcmCsw buf / MODE_THROUGHPUT) % 2 = 1 := hthr
+      simp only [hthr', decide_false, Bool.false_eq_true, if_false]
+      have ha2 : pcmAlign buf < 2 := by simp only [pcmAlign]; omega
+      have hframe := fun (req : Nat) => decFrames_error_iff (Frame.fresh t.ipts_source false (pcmAlign buf)) (pcmAlign buf) ha2
+        (fresh_ipts_ne_none _ _) rfl rfl ex req buf (buf.length + 1) 4 (by omega) e
+      cases hass : t.assigned with
+      | some n =>
+        simp only
+        split
+        · rename_i fs heq
+          simp only [reduceCtorEq, false_iff]
+          rintro (⟨h, _⟩ | ⟨_, _, ⟨h, _⟩ | ⟨size, hs, he, h1, h2⟩⟩)
+          · omega
+          · cases h
+          · rcases hs with ⟨hs, hpos⟩ | ⟨hs, _⟩
+            · simp only [Option.some.injEq] at hs
+              have hsz : (n : Int) = size := by omega
+              subst hsz
+              have := (hframe _).2 ⟨he, h1, h2⟩
+              exact absurd (heq.symm.trans this) (by simp)
+            · cases hs
+        · rename_i e' heq
+          simp only [Except.error.injEq]
+          constructor
+          · rintro rfl
+            obtain ⟨he, h1, h2⟩ := (hframe (pcmReq buf n)).1 heq
+            exact Or.inr ⟨h4, hthr, Or.inr ⟨n, Or.inl ⟨by simp, by omega⟩, he, h1, h2⟩⟩
+          · rintro (⟨h, _⟩ | ⟨_, _, ⟨h, _⟩ | ⟨size, hs, he, h1, h2⟩⟩)
+            · omega
+            · cases h
+            · rcases hs with ⟨hs, hpos⟩ | ⟨hs, _⟩
+              · simp only [Option.some.injEq] at hs
+                have hsz : (n : Int) = size := by omega
+                subst hsz
+                have := (hframe _).2 ⟨he, h1, h2⟩
+                have := heq.symm.trans this
+                simpa using this
+              · cases hs
+      | none =>
+        simp only
+        have hdet := detect_error_iff t buf (if pcmAlign buf = 0 then 2 else 4) e
+        cases hdd : detect t buf (if pcmAlign buf = 0 then 2 else 4) with
+        | error e' =>
+          rw [hdd] at hdet
+          have hdd' : detect t buf (if pcmCsw buf / MODE_ALIGNMENT % 2 = ALIGN_16b then DATA_HEADER_LEN_16 else DATA_HEADER_LEN_32) = .error e' := hdd
+          simp only [hdd', Except.error.injEq]
+          constructor
+          · rintro rfl
+            obtain ⟨he, hsw⟩ := hdet.1 rfl
+            exact Or.inr ⟨h4, hthr, Or.inl ⟨trivial, he, hsw⟩⟩
+          · rintro (⟨h, _⟩ | ⟨_, _, ⟨_, he, hsw⟩ | ⟨size, hs, _⟩⟩)
+            · omega
+            · have := hdet.2 ⟨he, hsw⟩
+              simpa using this
+            · rcases hs with ⟨hs, _⟩ | ⟨_, hs⟩
+              · cases hs
+              · cases hs
+        | ok d =>
+          rw [hdd] at hdet
+          have hdd' : detect t buf (if pcmCsw buf / MODE_ALIGNMENT % 2 = ALIGN_16b then DATA_HEADER_LEN_16 else DATA_HEADER_LEN_32) = .ok d := hdd
+          simp only [hdd']
+          split
+          · rename_i fs heq
+            simp only [reduceCtorEq, false_iff]
+            rintro (⟨h, _⟩ | ⟨_, _, ⟨_, he, hsw⟩ | ⟨size, hs, he, h1, h2⟩⟩)
+            · omega
+            · exact absurd (hdet.2 ⟨he, hsw⟩) (by simp)
+            · rcases hs with ⟨hs, _⟩ | ⟨_, hs⟩
+              · cases hs
+              · simp only [Except.ok.injEq] at hs
+                subst hs
+                have := (hframe _).2 ⟨he, h1, h2⟩
+                exact absurd (heq.symm.trans this) (by simp)
+          · rename_i e' heq
+            simp only [Except.error.injEq]
+            constructor
+            · rintro rfl
+              obtain ⟨he, h1, h2⟩ := (hframe (pcmReq buf d)).1 heq
+              exact Or.inr ⟨h4, hthr, Or.inr ⟨d, Or.inr ⟨trivial, rfl⟩, he, h1, h2⟩⟩
+            · rintro (⟨h, _⟩ | ⟨_, _, ⟨_, he, hsw⟩ | ⟨size, hs, he, h1, h2⟩⟩)
+              · omega
+              · exact absurd (hdet.2 ⟨he, hsw⟩) (by simp)
+              · rcases hs with ⟨hs, _⟩ | ⟨_, hs⟩
+                · cases hs
+                · simp only [Except.ok.injEq] at hs
+                  subst hs
+                  have := (hframe _).2 ⟨he, h1, h2⟩
+                  have := heq.symm.trans this
+                  simpa using this
+  · have hc : structUnpackFrom PCM_unpack_fmt0 buf 0 = .error .struct := by
+      simp only [structUnpackFrom, PCM_unpack_fmt0, Fmt.size, codesSize, Code.size]
+      have : ¬ 0 + (4 + 0) ≤ buf.length := by omega
+      simp only [this, if_false]
+    simp only [hc, Except.error.injEq]
+    constructor
+    · rintro rfl; exact Or.inl ⟨by omega, rfl⟩
+    · rintro (⟨_, rfl⟩ | ⟨h, _⟩)
+      · rfl
+      · omega
+
+/-- the outcome list — nothing else, in particular never `fuel`, `AttributeError` or `KeyError` (which the frame
+    decoder can raise on its own, `PCMFrame_unpack_outcomes`, but not for the frame objects the packet decoder builds) -/
+theorem PCM_unpack_outcomes (t : Packet) (buf : Bytes) (ex : Bool) :
+    (Packet.unpack t buf ex).2 = .ok () ∨ (Packet.unpack t buf ex).2 = .error .struct ∨
+    (Packet.unpack t buf ex).2 = .error .generic := by
+  cases hr : (Packet.unpack t buf ex).2 with
+  | ok u => exact Or.inl rfl
+  | error e =>
+    rcases (PCM_unpack_error_iff t buf ex e).1 hr with ⟨_, rfl⟩ | ⟨_, _, ⟨_, rfl, _⟩ | ⟨_, _, rfl, _⟩⟩
+    · exact Or.inr (Or.inl rfl)
+    · exact Or.inr (Or.inl rfl)
+    · exact Or.inr (Or.inr rfl)
+
+/-- every outcome is reachable: `wPCM` accepted; 3 bytes → `struct.error`; sync-word option 2^32 without a size hint →
+    `struct.error`; with `extract_sync_sfid` a frame size of 3 (slice of 15 < 18 bytes) → `Exception`; a throughput-mode
+    word followed by anything → accepted -/
+example : (Packet.unpack (Packet.fresh (some 1) Option.none (some 3)) wPCM false).2 = .ok () := by rfl
+example : (Packet.unpack (Packet.fresh (some 1) Option.none (some 3)) (wPCM.take 3) false).2 = .error .struct := by rfl
+example : (Packet.unpack (Packet.fresh (some 1) (some 4294967296) Option.none) wPCM false).2 = .error .struct := by rfl
+example : (Packet.unpack (Packet.fresh (some 1) Option.none (some 3)) wPCM true).2 = .error .generic := by rfl
+example : (Packet.unpack (Packet.fresh (some 1) Option.none Option.none) [0, 0, 0x10, 0, 1, 2, 3] false).2 = .ok () := by rfl
+
+/-- joint witnesses for the helper lemmas above.  `Ipts_unpack_short`: 7 bytes for an RTC stamp.  `PCMFrame_packed_unpack_iff`:
+    the packed-mode prototype of `wPCM` (PTP, 32-bit alignment) satisfies the four hypotheses; a 12-byte slice is accepted,
+    an 11-byte one refused, and with `extract_sync_sfid` 18 / 17 bytes.  `decFrames_error_iff`: on `wPCM` with a slice length
+    of 11 the loop raises at once.  `detect_error_iff`: both sides on a 2^32 sync word. -/
+example : (Ipts.rtc 0 ≠ .none) ∧ ([1, 2, 3, 4, 5, 6, 7] : Bytes).length ≠ 8 ∧
+    Ipts.unpack (.rtc 0) [1, 2, 3, 4, 5, 6, 7] = .error .struct := ⟨by decide, by decide, rfl⟩
+example : (1 < 2) ∧ (Frame.fresh (some 1) false 1).ipts ≠ .none ∧ (Frame.fresh (some 1) false 1).throughput = false ∧
+    (Frame.fresh (some 1) false 1).alignment = 1 ∧ pcmNeed 1 false = 12 ∧ pcmNeed 1 true = 18 ∧ pcmNeed 0 false = 10 ∧
+    (Frame.unpack (Frame.fresh (some 1) false 1) (slice wPCM 4 16) false).2 = .ok () ∧
+    (Frame.unpack (Frame.fresh (some 1) false 1) (slice wPCM 4 15) false).2 = .error .struct ∧
+    (Frame.unpack (Frame.fresh (some 1) false 1) (slice wPCM 4 22) true).2 = .ok () ∧
+    (Frame.unpack (Frame.fresh (some 1) false 1) (slice wPCM 4 21) true).2 = .error .struct :=
+  ⟨by decide, fresh_ipts_ne_none _ _, rfl, rfl, rfl, rfl, rfl, rfl, rfl, rfl, rfl⟩
+example : wPCM.length - 4 + 1 ≤ wPCM.length + 1 ∧
+    decFrames (Frame.fresh (some 1) false 1) false 11 wPCM (wPCM.length + 1) 4 = .error .generic ∧
+    4 + 11 ≤ wPCM.length ∧ 11 < pcmNeed 1 false := ⟨by decide, rfl, by decide, by decide⟩
+example : detect (Packet.fresh (some 1) (some 4294967296) Option.none) wPCM 4 = .error .struct ∧
+    (Packet.fresh (some 1) (some 4294967296) Option.none).syncword = some 4294967296 := ⟨rfl, rfl⟩
+
 end Acra.Props.C08
